@@ -132,10 +132,10 @@ Proof.
   intros i d H. exact (map_nth_error (fun d0 => filter_fields d0 fields allow) i page H).
 Qed.
 
-(* ---------------------------------------------------------------- duplicate keys, block-list *)
-Lemma except_dup_keys_refuted :
+(* ---------------------------------------------------------------- duplicate keys, block-list v0 *)
+Lemma except_dup_keys_v0_refuted :
   exists d fields out,
-    filter_fields d fields false = Ok out /\ ~ Permutation out (project d fields false)
+    filter_fields_except_v0 d fields = Ok out /\ ~ Permutation out (project d fields false)
     /\ In (1, 11) out /\ memb 1 fields = true.
 Proof.
   exists [(1, 10); (1, 11); (2, 12)], [1], [(2, 12); (1, 11)].
